@@ -66,6 +66,7 @@ type c05Case struct {
 	Entry string        `json:"entry"` // tpl: NewFS(+WithComponents).Load.Fill.Render | vue: NewVue(+RegisterComponent).Render
 	Files []c05File     `json:"files"` // [0] is the page
 	Data  map[string]TV `json:"data,omitempty"`
+	Wrap  *c05Wrap      `json:"wrap,omitempty"` // wrap part (c05_wrap.go)
 }
 
 type c05 struct{}
@@ -99,10 +100,13 @@ func (p *c05) Rule() string {
 func (p *c05) nTree(ctx core.Ctx) int { return ctx.Pick(40000, 320000) }
 
 func (p *c05) Plan(ctx core.Ctx) int {
-	return c05NGrid + c05NTypes() + c05NMulti + c05NNames() + p.nTree(ctx)
+	return c05NGrid + c05NTypes() + c05NMulti + c05NNames() + p.nTree(ctx) + c05NWrap()
 }
 
 func (p *c05) Gen(ctx core.Ctx, i int) any {
+	if n := c05NGrid + c05NTypes() + c05NMulti + c05NNames() + p.nTree(ctx); i >= n {
+		return c05BuildWrap(i - n)
+	}
 	if i < c05NGrid {
 		return c05GenGrid(i)
 	}
@@ -714,6 +718,10 @@ func (p *c05) Exec(ctx core.Ctx, cc any) core.Obs {
 	c05GCOnce.Do(func() { debug.SetGCPercent(300); debug.SetMemoryLimit(1 << 30) })
 	c := cc.(c05Case)
 	var o core.Obs
+	if c.Part == "wrap" && c.Wrap != nil {
+		c05ExecWrap(c, &o)
+		return o
+	}
 	if len(c.Files) == 0 {
 		return o
 	}
